@@ -275,9 +275,9 @@ def validate_translation(ctx, q, bins):
 RES_RE = re.compile(r'^\[([^\]]+)\] (?:line (\d+) )?(.*): (SUCCESS|FAILURE|UNKNOWN)$', re.M)
 
 
-def cbmc_cmd(ctx, q, b, extra=None):
+def cbmc_cmd(ctx, q, b, extra=None, witness=True):
     cmd = ['cbmc', q.harness, '-I', LIB, '-I', os.path.join(VERIF, 'harness'), '-I', os.path.dirname(q.harness),
-           '-DVF_UNIT_C="%s"' % b['c'], '-DWITNESS'] + cdefs(q) + ['-D%s=%s' % kv for kv in sorted(q.cbmc_defines.items())]
+           '-DVF_UNIT_C="%s"' % b['c']] + (['-DWITNESS'] if witness else []) + cdefs(q) + ['-D%s=%s' % kv for kv in sorted(q.cbmc_defines.items())]
     cmd += ['--unwind', str(q.unwind), '--unwinding-assertions', '--drop-unused-functions', '--no-malloc-may-fail', '--object-bits', '12']
     if q.unwindset:
         cmd += ['--unwindset', ','.join(q.unwindset)]
@@ -293,8 +293,8 @@ def cbmc_cmd(ctx, q, b, extra=None):
     return cmd
 
 
-def run_cbmc(ctx, q, b, extra=None, timeout=None):
-    cmd = cbmc_cmd(ctx, q, b, extra)
+def run_cbmc(ctx, q, b, extra=None, timeout=None, witness=True):
+    cmd = cbmc_cmd(ctx, q, b, extra, witness)
     wrapped = ['/usr/bin/time', '-f', 'VF_RSS_KB=%M', '--'] + cmd
     rc, out, err, dt = sh(wrapped, timeout=timeout or q.timeout or ctx.default_timeout, mem_gb=q.mem_gb * 3 + 4)
     m = re.search(r'VF_RSS_KB=(\d+)', err)
@@ -391,8 +391,21 @@ def run_query(ctx, q, cache, lock):
         unw = [x for x in fails if '.unwind.' in x['id'] or 'unwinding assertion' in x['msg']]
         r['failed'] = [x['id'] + ' ' + x['msg'] for x in fails]
         if unw:
+            # either the bound is too small for the harness, or the code under test iterates more often than it can on the
+            # unchanged tree (e.g. a loop that no longer makes progress): get an input that exceeds the bound and try it on
+            # the real build, whose stubs report an exhausted call budget as a failed check
             r['status'] = 'inconclusive'
             r['reason'] = 'unwinding bound too small: ' + '; '.join(x['id'] for x in unw[:4])
+            if not all(x['id'].startswith('harness.') or x['id'].startswith('main.') for x in unw):
+                cmd2, rc2, out2, err2, dt2, rss2 = run_cbmc(ctx, q, b, extra=['--trace', '--stop-on-fail'], witness=False)
+                inputs = extract_inputs(out2)
+                if inputs:
+                    meta, path = replay_real(ctx, q, bins, inputs, 'unwinding assertion ' + unw[0]['id'])
+                    r['counterexamples'] = [{'assertion': 'unwinding assertion ' + unw[0]['id'], 'inputs': inputs, 'reproduced': meta['reproduced'],
+                                             'real_failed_checks': meta['real_failed_checks'], 'real_sanitizer': meta['real_sanitizer'], 'replay': path}]
+                    if meta['reproduced']:
+                        r['status'] = 'violated'
+                        r.pop('reason', None)
             return r
         if ((not wit and not q.nowitness) or unreached) and not fails:
             # (a failed assertion takes precedence over an unreached witness: a defect may well make a witness unreachable)
